@@ -149,7 +149,9 @@ Definition consts_case (types : list string) (modes : list Z) (keys : list strin
   [-1; b2z (ok_t && ok_m && ok_k); 1; 0; 0; b2z (ok_t && ok_m && ok_k); -1; 0; 0; 0; 0; 0; 0].
 
 (* ---------- the controller family: cluster-level events through the real handlers, queue and
-   lbc.sync ---------- *)
+   lbc.sync, the start-up step, namespaces that stop / start being watched, process restarts ---------- *)
+
+Inductive xev := XE (e : cev) | XRestart.
 
 (* one observed step: listing, Path, Error != nil, keys the worker synced (drain only) *)
 Definition csobs := (sobs * list string)%type.
@@ -169,10 +171,13 @@ Fixpoint apply_ops (cadel : bool) (st : state) (ops : list op) (last : option re
               apply_ops cadel st' r (match ro with Some x => Some x | None => last end)
   end.
 
-Fixpoint cagree (cadel : bool) (c : cstate) (st : state) (h : list cev) (obs : list csobs) : bool :=
+Fixpoint cagree (cadel : bool) (c : cstate) (st : state) (h : list xev) (obs : list csobs) : bool :=
   match h, obs with
   | [], [] => true
-  | e :: r, ((ls, p, er), synced) :: robs =>
+  | XRestart :: r, ((ls, _, _), _) :: robs =>
+      let st' := restart_state st in
+      listing_eqb (files st') ls && cagree cadel (crestart c) st' r robs
+  | XE e :: r, ((ls, p, er), synced) :: robs =>
       let '(c', ops) := cstep c e in
       let '(st', ro) := apply_ops cadel st ops None in
       listing_eqb (files st') ls &&
@@ -184,45 +189,109 @@ Fixpoint cagree (cadel : bool) (c : cstate) (st : state) (h : list cev) (obs : l
   | _, _ => false
   end.
 
-(* S: the worker's knowledge is brought up to date for EVERY key that had an event (whether or
-   not a handler queued it) with the object the cluster holds at that moment; the listing is
-   judged whenever no event is outstanding. *)
-Fixpoint cspec_run (univ : list string) (done : list op) (g : ghost) (objs : objects) (dirty : list qtask)
-         (i : Z) (h : list cev) (obs : list csobs) : Z * list Z :=
-  match h, obs with
-  | e :: r, (ob, _) :: robs =>
-      match e with
-      | CPut ns name v => cspec_run univ done g (oset objs (key_of ns name) (Some v)) (enq (ns, name) dirty) (i + 1) r robs
-      | CDel ns name => cspec_run univ done g (oset objs (key_of ns name) None) (enq (ns, name) dirty) (i + 1) r robs
-      | CDrain =>
-          let gops := map (sync_op objs) dirty in
-          let g' := fold_left gstep gops g in
-          let done' := (done ++ gops)%list in
-          match step_verdict univ done' g' (Delete "") ob with
-          | [] => cspec_run univ done' g' objs [] (i + 1) r robs
-          | v => (i, v)
-          end
-      | CGet k =>
-          let g' := gstep g (Get k) in
-          let done' := (done ++ [Get k])%list in
-          match dirty with
-          | [] => match step_verdict univ done' g' (Get k) ob with
-                  | [] => cspec_run univ done' g' objs dirty (i + 1) r robs
-                  | v => (i, v)
-                  end
-          | _ => cspec_run univ done' g' objs dirty (i + 1) r robs
-          end
+(* S.  The specification's own book-keeping, independent of handlers / queue / syncSecret /
+   preSyncSecrets / cleanup code:
+     api, unw   the objects of the cluster and the namespaces not watched; a Secret is VISIBLE when it
+                exists and its namespace is watched
+     dirty      the keys with an event the worker has not yet had a chance to see
+     g          current version and asked-for flag per key, as the controller should know them: brought
+                up to date with the visible object for every dirty key when the worker drains, for every
+                key at start-up, set to absent for the keys of a namespace that stops being watched, and
+                emptied by a restart (nothing has been asked for in the new process)
+     pre        the files that were in the directory when the process restarted and are still unchanged
+   The listing is judged whenever no event is outstanding. *)
+Record sstate := mks {
+  s_g : ghost; s_api : objects; s_unw : list string; s_keys : list qtask; s_dirty : list qtask;
+  s_done : list op; s_pre : list (string * file) }.
+
+Definition visible (s : sstate) (t : qtask) : option ver :=
+  if mem_s (fst t) (s_unw s) then None else s_api s (task_key t).
+
+Definition sync_vis (s : sstate) (t : qtask) : op :=
+  match visible s t with Some v => Upsert (fst t) (snd t) v | None => Delete (task_key t) end.
+
+Definition learn (s : sstate) (ts : list qtask) (dirty' : list qtask) : sstate :=
+  let gops := map (sync_vis s) ts in
+  mks (fold_left gstep gops (s_g s)) (s_api s) (s_unw s) (s_keys s) dirty' ((s_done s) ++ gops)%list (s_pre s).
+
+(* like step_verdict, but a wrong file that is a left-over of the previous process gets fail kind 5 *)
+Definition cverdict (univ : list string) (s : sstate) (o : op) (ob : sobs) : list Z :=
+  let '(ls, _, _) := ob in
+  match step_verdict univ (s_done s) (s_g s) o ob with
+  | 2 :: rest =>
+      match filter (fun k => negb (key_ok (s_g s) ls k)) univ with
+      | k :: _ =>
+          let '(fi, _) := wrong_file (s_g s) ls k in
+          let f := nth (Z.to_nat fi) (names_of_key k) "" in
+          if existsb (fun fc => String.eqb (fst fc) f) (s_pre s) then 5 :: rest else 2 :: rest
+      | [] => 2 :: rest
       end
+  | v => v
+  end.
+
+Definition keep_pre (ls : list (string * file)) (pre : list (string * file)) : list (string * file) :=
+  filter (fun fc => ofile_eqb (lookup (fst fc) ls) (Some (snd fc))) pre.
+
+Definition set_pre (s : sstate) (pre : list (string * file)) : sstate :=
+  mks (s_g s) (s_api s) (s_unw s) (s_keys s) (s_dirty s) (s_done s) pre.
+
+(* book-keeping of one step; the bool says whether the listing is to be judged after it *)
+Definition sstep (s : sstate) (x : xev) (ls : list (string * file)) : sstate * bool * op :=
+  match x with
+  | XRestart =>
+      (mks gempty (s_api s) (s_unw s) (s_keys s) (s_keys s) [] ls, false, Delete "")
+  | XE (CPut ns name v) =>
+      let s1 := mks (s_g s) (oset (s_api s) (key_of ns name) (Some v)) (s_unw s) (enq (ns, name) (s_keys s))
+                    (if mem_s ns (s_unw s) then s_dirty s else enq (ns, name) (s_dirty s)) (s_done s) (s_pre s) in
+      (s1, false, Delete "")
+  | XE (CDel ns name) =>
+      let s1 := mks (s_g s) (oset (s_api s) (key_of ns name) None) (s_unw s) (s_keys s)
+                    (if mem_s ns (s_unw s) then s_dirty s else enq (ns, name) (s_dirty s)) (s_done s) (s_pre s) in
+      (s1, false, Delete "")
+  | XE CDrain => (learn s (s_dirty s) [], true, Delete "")
+  | XE CStart => (learn s (s_keys s) [], true, Delete "")
+  | XE (CGet k) =>
+      let s1 := mks (gstep (s_g s) (Get k)) (s_api s) (s_unw s) (s_keys s) (s_dirty s)
+                    ((s_done s) ++ [Get k])%list (s_pre s) in
+      (s1, match s_dirty s with [] => true | _ => false end, Get k)
+  | XE (CUnwatch ns) =>
+      if mem_s ns (s_unw s) then (s, match s_dirty s with [] => true | _ => false end, Delete "")
+      else
+        let s1 := mks (s_g s) (s_api s) (ns :: s_unw s) (s_keys s) (s_dirty s) (s_done s) (s_pre s) in
+        let d' := filter (fun t => negb (in_ns ns t)) (s_dirty s) in
+        (learn s1 (filter (in_ns ns) (s_keys s)) d', match d' with [] => true | _ => false end, Delete "")
+  | XE (CWatch ns) =>
+      if mem_s ns (s_unw s) then
+        (mks (s_g s) (s_api s) (filter (fun n => negb (String.eqb n ns)) (s_unw s)) (s_keys s)
+             (fold_left (fun q t => if in_ns ns t then enq t q else q) (s_keys s) (s_dirty s)) (s_done s) (s_pre s),
+         false, Delete "")
+      else (s, match s_dirty s with [] => true | _ => false end, Delete "")
+  end.
+
+Fixpoint cspec_run (univ : list string) (s : sstate) (i : Z) (h : list xev) (obs : list csobs) : Z * list Z :=
+  match h, obs with
+  | x :: r, (ob, _) :: robs =>
+      let '(ls, _, _) := ob in
+      let '(s1, judge, o) := sstep s x ls in
+      let s2 := match x with XRestart => s1 | _ => set_pre s1 (keep_pre ls (s_pre s1)) end in
+      if judge then
+        match cverdict univ s2 o ob with
+        | [] => cspec_run univ s2 (i + 1) r robs
+        | v => (i, v)
+        end
+      else cspec_run univ s2 (i + 1) r robs
   | [], [] => (-1, [])
   | _, _ => (i, [4; 0; 0; 0; 0; 0])
   end.
 
-Definition cuniverse (h : list cev) : list string :=
-  dedup (flat_map (fun e => match e with CPut ns name _ => [key_of ns name] | _ => [] end) h).
+Definition cuniverse (h : list xev) : list string :=
+  dedup (flat_map (fun x => match x with XE (CPut ns name _) => [key_of ns name] | _ => [] end) h).
 
-Definition ctl_case (id : Z) (h : list cev) (obs : list csobs) : list Z :=
-  let '(i, v) := cspec_run (cuniverse h) [] gempty (fun _ => None) [] 0 h obs in
+Definition sinit : sstate := mks gempty (fun _ => None) [] [] [] [] [].
+
+Definition ctl_case (id : Z) (h : list xev) (obs : list csobs) : list Z :=
+  let '(i, v) := cspec_run (cuniverse h) sinit 0 h obs in
   let sobs_only := map fst obs in
   ([id; b2z (cagree false cinit init h obs); b2z (match v with [] => true | _ => false end);
-    b2z (nonempty_somewhere sobs_only); Z.of_nat (List.length (compile h)); b2z (cagree true cinit init h obs); i]
+    b2z (nonempty_somewhere sobs_only); Z.of_nat (List.length h); b2z (cagree true cinit init h obs); i]
    ++ match v with [] => [0; 0; 0; 0; 0; 0] | _ => v end)%list.
